@@ -332,13 +332,13 @@ theorem C02_facts :
       ("EnumField", "crc_type", ""), ("EidField", "destination", ""), ("EidField", "source", ""),
       ("EidField", "report_to", ""), ("PacketField", "create_ts", "cls=Timestamp"),
       ("UintField", "lifetime", ""),
-      ("UintField", "fragment_offset", "if(lambda block: block.getfieldval('bundle_flags') & PrimaryBlock.Flag.IS_FRAGMENT) "),
-      ("UintField", "total_app_data_len", "if(lambda block: block.getfieldval('bundle_flags') & PrimaryBlock.Flag.IS_FRAGMENT) "),
-      ("BstrField", "crc_value", "if(lambda block: block.getfieldval('crc_type') != 0) ")]
+      ("UintField", "fragment_offset", "if(lambda p: p.getfieldval('bundle_flags') & PrimaryBlock.Flag.IS_FRAGMENT) "),
+      ("UintField", "total_app_data_len", "if(lambda p: p.getfieldval('bundle_flags') & PrimaryBlock.Flag.IS_FRAGMENT) "),
+      ("BstrField", "crc_value", "if(lambda p: p.getfieldval('crc_type') != 0) ")]
     ∧ Facts.layouts.lookup "blocks.CanonicalBlock" = some [
       ("UintField", "type_code", ""), ("UintField", "block_num", ""),
       ("FlagsField", "block_flags", ""), ("EnumField", "crc_type", ""), ("BstrField", "btsd", ""),
-      ("BstrField", "crc_value", "if(lambda block: block.crc_type != 0) ")]
+      ("BstrField", "crc_value", "if(lambda p: p.crc_type != 0) ")]
     ∧ Facts.layouts.lookup "blocks.Timestamp" = some [
       ("DtnTimeField", "dtntime", ""), ("UintField", "seqno", "")]
     ∧ Facts.layouts.lookup "bundle.Bundle" = some [
@@ -351,7 +351,7 @@ theorem C02_facts :
     ∧ Facts.layouts.lookup "bpsecenc.AbstractSecurityBlock" = some [
       ("FieldListField", "targets", "ArrayWrapField fld=UintField"), ("UintField", "context_id", ""),
       ("FlagsField", "context_flags", ""), ("EidField", "source", ""),
-      ("PacketListField", "parameters", "if(lambda block: block.getfieldval('context_flags') & AbstractSecurityBlock.Flag.PARAMETERS_PRESENT) ArrayWrapField cls=TypeValuePair"),
+      ("PacketListField", "parameters", "if(lambda p: p.getfieldval('context_flags') & AbstractSecurityBlock.Flag.PARAMETERS_PRESENT) ArrayWrapField cls=TypeValuePair"),
       ("PacketListField", "results", "ArrayWrapField cls=TargetResultList")]
     ∧ Facts.layouts.lookup "bpsecenc.TargetResultList" = some [
       ("PacketListField", "results", "cls=TypeValuePair")]
